@@ -42,12 +42,12 @@ def _vk(fmt_name, f):
     return [
         H(f"h_roundtrip::vk_read_then_write_{f}", f"C17.K.vk.read_then_write.{f}",
           f"for every buffer VerifyingKey::read_from_cs accepts ({fmt_name}), VerifyingKey::write of the decoded key emits exactly the consumed prefix of the buffer (same length, byte for byte)",
-          VK_FUNCS, VK_BOUND.format(fmt_name), "vk-roundtrip:write-of-read", est=70, timeout=T, min_covers=2, stubs=VK_STUBS),
+          VK_FUNCS, VK_BOUND.format(fmt_name), "vk-roundtrip:write-of-read", est=70, timeout=T, min_covers=2, stubs=VK_STUBS, replay=False),
         H(f"h_roundtrip::vk_write_then_read_{f}", f"C17.K.vk.write_then_read.{f}",
           f"for every key in the image of read_from_cs ({fmt_name}) the bytes write produces (the consumed prefix, by read_then_write) are accepted by read_from_cs, "
           "consumed entirely, and decode to the same k and the same fixed / permutation commitments (hence re-write to the same bytes)",
           VK_FUNCS, VK_BOUND.format(fmt_name) + "; keys: every k in 0..=4 (what the reader lets through for F_97), every commitment value 0..=255",
-          "vk-roundtrip:read-of-write", est=110, timeout=T, min_covers=3, stubs=VK_STUBS),
+          "vk-roundtrip:read-of-write", est=110, timeout=T, min_covers=3, stubs=VK_STUBS, replay=False),
     ]
 
 
@@ -77,7 +77,8 @@ SPECS = _vk("Processed", "processed") + _vk("RawBytes", "rawbytes") + [
       VK_BOUND.format("RawBytes") + "; {:?} renderings of domain and constraint system are the empty string (std::fmt::format stubbed), the digest is arbitrary",
       "vk-transcript:written-fields-hashed", est=240, timeout={"thorough": 1800}, min_covers=1, tiers=("thorough",),
       stubs=["std::fmt::format", "std::hash::RandomState::new", "midnight_proofs::poly::EvaluationDomain::new (struct-assembling stand-in)",
-             "core::arch::x86_64::__cpuid_count", "blake2b_simd::State::update (recording oracle)", "blake2b_simd::State::finalize (any digest)"]),
+             "core::arch::x86_64::__cpuid_count", "blake2b_simd::State::update (recording oracle)", "blake2b_simd::State::finalize (any digest)"],
+      replay=False),
 ]
 
 
@@ -135,46 +136,83 @@ def check(run):
             _extract_by_pins(run, ob, *PINS[ob.id])
 
 
-# Counterexample extraction when Kani's concrete playback is too slow (> 200 s for these harnesses, un-sliced formula):
-# the SAME harness body with its input pinned to one key is re-decided by Kani (~45 s); if it FAILS with a genuine
-# check, those values (in the order of the main harness's any() calls: 11 buffer bytes) are replayed natively
-# (level 1: harness body on the real functions; level 2: the same comparison on a real BLS12-381/KZG key).
+# Counterexample extraction. Kani's concrete playback of the verifying-key harnesses (formula slicing off) needs > 200 s for
+# the cheapest one and > 12 GB for those with a symbolic length, so they are registered with replay=False and a FAILED one is
+# re-decided on a ladder of PINNED variants of the SAME harness body (h_roundtrip.rs::input_pinned):
+#   pin_1  one canonical key with pairwise distinct field bytes + trailing bytes, len = 11     (values known, ~45 s)
+#   pin_2  the same key, len = its exact length                                              (values known, ~45 s)
+#   pin_3  all bytes symbolic, len = 11: Kani's playback is feasible and yields the values   (~250 s)
+# The first variant that FAILS with a genuine check gives the concrete values (in the order of the main harness's any()
+# calls: 11 buffer bytes, then len), which are replayed natively on the MAIN harness (level 1: body on the real functions;
+# level 2 where scenario_cli.rs has one: the same comparison on a real BLS12-381/KZG key).
+def _key(f, exact):
+    fx, pm, tr, m = 0x11, 0x22, 0x33, 0x5A
+    b = [3, 2, 1, 0, 0, 0] + ([fx, pm, tr, tr, tr] if f == "processed" else [fx, fx ^ m, pm, pm ^ m, tr])
+    n = 11 if not exact else (8 if f == "processed" else 10)
+    return [[x] for x in b] + [list(n.to_bytes(8, "little"))]
+
+
+def _ladder(base, f, rungs=(1, 2, 3)):
+    out = []
+    for r in rungs:
+        out.append((f"{base}_pin_{r}", _key(f, exact=(r == 2)) if r in (1, 2) else None))
+    return out
+
+
 PINS = {
     "C17.K.vk.bytes_length.processed": ("h_roundtrip::vk_bytes_length_processed", [
         ("h_roundtrip::vk_bytes_length_processed_pin", [[3], [0], [1], [0], [0], [0], [0], [0], [0], [0], [0]])]),
     "C17.K.vk.bytes_length.rawbytes": ("h_roundtrip::vk_bytes_length_rawbytes", [
         ("h_roundtrip::vk_bytes_length_rawbytes_pin", [[3], [0], [1], [0], [0], [0], [0], [0x5A], [0], [0x5A], [0]])]),
+    "C17.K.vk.transcript_binds_written": ("h_roundtrip::vk_transcript_binds_written_rawbytes",
+                                          _ladder("h_roundtrip::vk_transcript_binds_written_rawbytes", "rawbytes", (1, 3))),
 }
+for _f in ("processed", "rawbytes"):
+    for _d in ("read_then_write", "write_then_read"):
+        PINS[f"C17.K.vk.{_d}.{_f}"] = (f"h_roundtrip::vk_{_d}_{_f}", _ladder(f"h_roundtrip::vk_{_d}_{_f}", _f))
 
 
 def _extract_by_pins(run, ob, main_harness, pins):
     import os, time
     crate = kani._Crate(CRATE, None, ("-Z", "stubbing"), "replay", 12 * 1024 * 1024)
     t0 = time.time()
+    tried = []
     for pinned, vals in pins:
         cmd = ["cargo", "kani", "--target-dir", crate.base(), "-Z", "stubbing", "--harness", pinned, "--exact", "--output-format", "terse"]
+        if vals is None:
+            cmd += ["-Z", "concrete-playback", "--concrete-playback=print"]
         lock = crate.locked()
         try:
-            rc, out, dt = kani._sh(cmd, crate.crate_dir, 600, crate.mem_kb, os.path.join(crate.logs, pinned.replace(":", "_") + ".pin.log"))
+            rc, out, dt = kani._sh(cmd, crate.crate_dir, 1500 if vals is None else 600, crate.mem_kb,
+                                   os.path.join(crate.logs, pinned.replace(":", "_") + ".pin.log"))
         finally:
             lock.close()
         ob.queries += 1
         r = kani.parse_output(out)
         genuine = [c for c in r["failed_checks"] if not kani.TOOL_FAILURE_PAT.search(c["description"])]
         run.log(f"K pin {pinned}: failed={bool(r['failed'])} genuine={len(genuine)} {dt:.0f}s")
+        tried.append(f"{pinned.split('::')[-1]}:{'FAILED' if r['failed'] else 'ok' if r['successful'] else f'rc={rc}'}")
         if not (r["failed"] and genuine) or r["unwinding"] or r["unsupported"]:
             continue
-        reproduced, detail, per = crate.run_native(main_harness, vals)
-        payload = dict(engine="K", crate=CRATE, harness=main_harness, concrete_vals=vals, failed_checks=genuine, pinned_harness=pinned,
-                       replay_bin="replay", native=per, engine_part="K",
-                       how="counterexample obtained by re-deciding the harness with its input pinned (Kani playback too slow); "
-                           "check <ID> --replay <this file>: native run of the harness body + the same comparison on a real key")
-        path = run.write_replay(ob, payload)
-        fdesc = "; ".join(f"{c['description']} @ {c['file']}:{c['line']}" for c in genuine)[:300]
-        if reproduced:
-            return ob.set(core.VIOLATION, f"{fdesc}; counterexample pinned by {pinned}; native replay reproduces ({detail})",
-                          solver="cbmc+cadical", solver_s=ob.solver_s + time.time() - t0, replay=path)
-        return ob.set(core.INCONCLUSIVE, f"{fdesc}; pinned counterexample does not reproduce natively ({detail}); see {path}")
+        cands = [vals] if vals is not None else [t["vals"] for t in kani.parse_playback(out) if t["check_kind"] != "cover"][:4]
+        last = None
+        for cv in cands:
+            reproduced, detail, per = crate.run_native(main_harness, cv)
+            payload = dict(engine="K", crate=CRATE, harness=main_harness, concrete_vals=cv, failed_checks=genuine, pinned_harness=pinned,
+                           replay_bin="replay", native=per, engine_part="K",
+                           how="counterexample obtained by re-deciding the harness with its input (partly) pinned (Kani playback of the unpinned "
+                               "harness is infeasible); check <ID> --replay <this file>: native run of the harness body (+ the real-key scenario where one exists)")
+            last = (payload, detail)
+            if reproduced:
+                path = run.write_replay(ob, payload)
+                fdesc = "; ".join(f"{c['description']} @ {c['file']}:{c['line']}" for c in genuine)[:300]
+                return ob.set(core.VIOLATION, f"{fdesc}; counterexample from {pinned}; native replay reproduces ({detail})",
+                              solver="cbmc+cadical", solver_s=ob.solver_s + time.time() - t0, replay=path)
+        if last:
+            path = run.write_replay(ob, last[0])
+            ob.set(core.INCONCLUSIVE, f"{(ob.detail or '')[:200]}; counterexample of {pinned} does not reproduce natively ({last[1]}); see {path}")
+    if ob.status == core.INCONCLUSIVE:
+        ob.set(core.INCONCLUSIVE, f"{(ob.detail or '')[:300]} | pin ladder: {', '.join(tried)}")
     return ob
 
 
